@@ -16,7 +16,8 @@ import sys
 from vlib import common
 
 LEVEL = "exploration"
-VALS = [0.0, 1.0, -2.5, 1e-3, 123456.789, 3, 1.6e-19, -1e-6 / 3, 2.5e-15]
+VALS = [0.0, 1.0, -2.5, 1e-3, 123456.789, 3, 1.6e-19, -1e-6 / 3, 2.5e-15,
+        2e-05, 1e16, 1.2345678901234567e19, -3e20]
 
 
 def table_worker(task):
@@ -97,6 +98,17 @@ def table_worker(task):
                         s = fn(x)
                         if not isinstance(s, str) or not s:
                             bad.append(("text-empty", name, u))
+                        elif fn is str and dv == dv:
+                            # "the chosen unit follows the value after a
+                            # space": the text begins with the value
+                            try:
+                                tv = float(s.split(" ")[0])
+                            except ValueError:
+                                tv = None
+                            if tv is None or not math.isclose(
+                                    tv, dv, rel_tol=1e-9, abs_tol=0.0):
+                                bad.append(("text-does-not-show-the-value",
+                                            name, u, v, s))
                     except Exception as ex:  # noqa
                         bad.append(("text-raised", name, u,
                                     type(ex).__name__))
